@@ -20,8 +20,15 @@ def mkraw(active, ui=()):
     if 'k1-only' in active: keys.append(1)
     return raw(keys=sorted(set(keys)), mbuttons=mbs, motion=mo, pads=[pad(0, pads_b, pads_a)], ui=list(ui))
 
-def new_ctx_spec(ids, dimshift=0):
+def new_ctx_spec(ids, dimshift=0, grouped=None):
     acts = []
+    if grouped:
+        # several bindings per action (attached by successive `to` calls): the suppression is per binding, whatever
+        # the other bindings of the same action do
+        for j, group in enumerate(grouped):
+            a = aid((j + dimshift) % 4, j // 4 + 2 * (dimshift % 2), False, j % 2 == 1)
+            acts.append(action(ids, a, [bind(ids, INPUTS[i][1], [PROBE], []) for i in group]))
+        return spec(acts)
     for j, (name, inp, _) in enumerate(INPUTS):
         a = aid((j + dimshift) % 4, j // 4 + 2 * (dimshift % 2), False, False)
         acts.append(action(ids, a, [bind(ids, inp, [PROBE], [])]))
@@ -35,13 +42,13 @@ def upper_spec(ids, L, script):
         acts.append(action(ids, a, [bind(ids, inp, [PROBE], [])], [], [c_script('KExplicit', script)]))
     return spec(acts)
 
-def scenario_for(rng, held_at_creation, pattern, how_created, with_upper, upper_script, ui_script, position):
+def scenario_for(rng, held_at_creation, pattern, how_created, with_upper, upper_script, ui_script, position, grouped=None):
     """pattern: list of sets of active inputs for the frames after creation"""
     ids = Ids()
     new_c = 2 if position == 'below' else 6          # priorities -10 / 15
     upper_c = 4 if position == 'below' else 3        # priorities 10 / 0: above or below the new context
     menu = sorted({new_c} | ({upper_c} if with_upper else set()))
-    cfg = {(new_c, 0): new_ctx_spec(ids)}
+    cfg = {(new_c, 0): new_ctx_spec(ids, grouped=grouped)}
     L = len(pattern) + 3
     if with_upper:
         cfg[(upper_c, 0)] = upper_spec(ids, L, (upper_script * L)[:L])
@@ -59,6 +66,19 @@ def scenario_for(rng, held_at_creation, pattern, how_created, with_upper, upper_
         steps.append(frame(mkraw(act, ui=[ui_script[k % len(ui_script)]] if ui_script else ())))
     return scenario(menu, [0], cfg, steps)
 
+def other_pad_scenario(rng, how_created, tied, own_first):
+    """a context tied to gamepad 0 (or unrestricted) is created while ANOTHER gamepad holds the button / axis it binds: for the
+    tied context that is not the input it names, so the first press on its own gamepad is reflected at once"""
+    ids = Ids()
+    sp = spec([action(ids, aid(0, 0, False, False), [bind(ids, pbutton(0), [PROBE], [])]),
+               action(ids, aid(1, 0, False, False), [bind(ids, paxis(0), [PROBE], [])])], pad=0 if tied else None)
+    def rw(own, other):
+        return raw(pads=[pad(0, [0] if own else [], [(0, F(1, 2) if own else F(0))]), pad(1, [0] if other else [], [(0, F(-1) if other else F(0))])])
+    steps = [sop(spawn(0, [] if how_created == 'insert' else [2])), frame(rw(False, False)), frame(rw(own_first, True))]
+    steps.append(sop(insert(0, 2) if how_created == 'insert' else REBUILD))
+    steps += [frame(rw(own_first, True)), frame(rw(True, True)), frame(rw(False, True)), frame(rw(True, True)), frame(rw(False, False)), frame(rw(True, False))]
+    return scenario([2], [0], {(2, 0): sp}, steps)
+
 NAMES = [n for n, _, _ in INPUTS]
 
 def cases(tier, rng):
@@ -69,6 +89,17 @@ def cases(tier, rng):
             for how in ('insert', 'rebuild'):
                 pat = [({name} if p else set()) for p in pattern]
                 yield (scenario_for(rng, {name}, pat, how, False, None, None, 'below'), 'single-input')
+    for how in ('insert', 'rebuild'):
+        for tied in (True, False):
+            for own_first in (False, True):
+                yield (other_pad_scenario(rng, how, tied, own_first), 'other-gamepad-held')
+    # actions with several bindings, some held at creation and some not, then released one after the other
+    n_in = len(INPUTS)
+    for grouped in ([[0, 2], [1, 3], [4, 5, 6], [7]], [[0, 1, 2, 3], [4, 6, 7], [5]], [[2, 0], [3, 4], [5, 1], [6, 7]]):
+        for held in ({'key'}, {'mbutton', 'ctrl-key'}, {'paxis', 'paxis-low'}, {'key', 'pbutton', 'motion'}):
+            for how in ('insert', 'rebuild'):
+                pat = [set(held), set(held) | {'mbutton', 'pbutton'}, set(held) - {'key', 'paxis'}, set(), set(held) | {'key'}]
+                yield (scenario_for(rng, held, pat, how, False, None, None, 'below', grouped=grouped), 'several-bindings-per-action')
     # Ctrl+K: key first / modifier first / other side modifier
     for first in ({'k1-only'}, {'ctrl-only'}, {'ctrl-key'}):
         for pattern in itertools.product([set(), {'ctrl-key'}, {'k1-only'}, {'ctrl-only'}], repeat=2):
@@ -92,9 +123,14 @@ def cases(tier, rng):
             for n in NAMES:
                 if rng.random() < .25: cur ^= {n}
             pat.append(set(cur))
+        grouped = None
+        if rng.random() < .4:
+            idx = list(range(n_in)); rng.shuffle(idx); grouped = []
+            while idx:
+                k = rng.randint(1, 3); grouped.append(idx[:k]); idx = idx[k:]
         yield (scenario_for(rng, held, pat, rng.choice(['insert', 'insert-update', 'rebuild']), rng.random() < .5,
                             [rng.choice(STATES) for _ in range(5)], [rng.choice([0, 0, 1, 2]) for _ in range(4)] if rng.random() < .3 else None,
-                            rng.choice(['below', 'above'])), 'random')
+                            rng.choice(['below', 'above']), grouped=grouped), 'random')
 
 def nontrivial(case, out):
     return 'LMod' in out
@@ -103,7 +139,7 @@ STAGES = [dict(name='suppression', mode='app', coq='Check.C08w', cases=cases, no
                exhaustive={'thorough': True, 'quick': True},
                rule='a context with one probed binding per input kind (key, Ctrl+key, mouse button, gamepad button, gamepad axis at 1/2, mouse motion, gamepad axes resting at 1/4 and -1/4) is inserted (directly or through Commands) or rebuilt while a '
                     'chosen subset of its inputs is held; then every press/release pattern of length 3 (quick) / 4 (thorough) per input; Ctrl+K with the key or the modifier pressed first; an existing '
-                    'consuming context on the same inputs above or below the new one whose scripted state goes Fired, Ongoing and None while the input stays down; UI hover over a held mouse button; random mixes. '
+                    'consuming context on the same inputs above or below the new one whose scripted state goes Fired, Ongoing and None while the input stays down; UI hover over a held mouse button; actions with 2-4 bindings (successive `to` calls) of which some are held at creation; a context tied to one gamepad created while another gamepad holds the same button / axis; random mixes. '
                     'non-trivial = some binding gets driven; distinct = distinct scenario text')]
 CLAUSES = {1: 'a binding was driven although the input it names has been physically active in every frame since its instance was created',
            2: 'a binding was not driven although its input has been inactive at least once since creation', 8: 'panic', 9: 'malformed trace', 10: 'panic'}
